@@ -1,4 +1,11 @@
-"""C01: each slot renders the fill addressed to it (render-sim, structure mode)."""
+"""C01: each slot renders the fill addressed to it (render-sim, structure mode).
+
+One run = one world (knobs, id stream) in which a drawn history prefix executes (other renders, some of
+them failing at a drawn callback; media-cache clear; GC) and then the checked program is rendered through
+its entry variants: the plain page, the page with every component tag routed through the dynamic
+component, and - for single-component pages - Component.render(kwargs, slots).  Every variant must
+refine the reference renderer.
+"""
 from sim import world
 from sim.model import emit, prog as progmod, ref
 from sim.engines import render as R
@@ -7,44 +14,68 @@ from sim.engines import render as R
 def default_params(tier):
     p = progmod.default_params(tier, forbid=["only", "provide", "inject_default"])
     p["budget_mult"] = 5000
+    p["py_entry"] = 6
+    p["max_prefix"] = 3
     return p
 
 
 def run(ch, params, decoded=False):
     knobs = R.draw_knobs(ch)
     prog = progmod.generate(ch, params)
-    w = R.start_world(knobs, prog["mode"])
+    mode = prog["mode"]
+    prefix = R.gen_prefix_ops(ch, params, mode, params.get("max_prefix", 0))
+    want_dyn = (not prog["py_entry"]) and ch.chance(1, 3, "variant_dynamic")
+    slot_funcs = ch.draw(8, "slot_funcs") if prog["py_entry"] else 0
+    w = R.start_world(knobs, mode)
     violations = []
-    stats = {"mode=" + prog["mode"]: 1}
+    stats = {"mode=" + mode: 1, "prefix_ops": len(prefix)}
+    R.run_prefix_ops(prefix, w, stats)
 
     exp = ref.run_model(prog)
     model = exp["model"]
     classes = emit.build_classes(prog)
     budget = params["budget_mult"] * max(1, model.node_renders) + 300_000
+    observed = {}
+
+    def check(variant, real, expected):
+        observed[variant] = [real[0], R.normalise(real[1])] if real[0] == "ok" else list(real[:3])
+        bad = R.compare(real, expected)
+        w.log(variant, observed[variant])
+        if bad:
+            violations.append({"class": bad[0], "fingerprint": [variant, bad[0], bad[1]],
+                               "detail": {"what": bad[2], "variant": variant}})
+
     w.begin_op()
-    real = R.real_render_page(prog, classes, w, budget=budget)
-    bad = R.compare(real, exp["result"])
-    if bad:
-        violations.append({"class": bad[0], "fingerprint": ["tag", bad[0], bad[1]],
-                           "detail": {"what": bad[2], "variant": "tag"}})
+    check("tag", R.real_render_page(prog, classes, w, budget=budget), exp["result"])
+    stats["user_callbacks"] = w.main.fp_count
+    stats["variant:tag"] = 1
+    if want_dyn and not violations:
+        dprog = R.rename_program(R.all_dynamic(prog), "d")
+        dexp = ref.run_model(dprog)
+        if dexp["result"][:2] != exp["result"][:2] and not (dexp["result"][0] == "err" and exp["result"][0] == "err"):
+            raise AssertionError(f"model disagrees with itself on the dynamic variant: {exp['result']} vs {dexp['result']}")
+        dclasses = emit.build_classes(dprog)
+        w.begin_op()
+        check("dynamic", R.real_render_page(dprog, dclasses, w, budget=budget * 2), dexp["result"])
+        stats["variant:dynamic"] = 1
+    if prog["py_entry"] and not violations:
+        w.begin_op()
+        check("python", R.real_render_python(prog, classes, w, budget=budget, slot_funcs=slot_funcs), exp["result"])
+        stats["variant:Component.render"] = 1
+
     feats = R.program_features(prog, model)
     stats["result=" + exp["result"][0] + (":" + exp["result"][1] if exp["result"][0] == "err" else "")] = 1
     stats["probe:fill_crosses_component_boundary"] = 1 if feats["fill_crosses_boundary"] else 0
     stats["probe:slot_renders_default_content"] = 1 if feats["slot_default_content"] else 0
     stats["instances"] = feats["instances"]
-    stats["user_callbacks"] = w.main.fp_count
-    stats["lib_calls"] = R.LAST_STEPS[0]
-    stats["model_node_renders"] = model.node_renders
-    ratio = R.LAST_STEPS[0] / max(1, model.node_renders)
-    stats["ratio_bucket=%d" % (min(int(ratio) // 50, 40) * 50)] = 1
     res = {
         "violations": violations,
-        "key": R.skeleton_key(prog),
+        "key": R.skeleton_key(prog, extra=[sorted(observed)]),
         "nontrivial": bool(feats["fill_crosses_boundary"] or feats["slot_default_content"]) and exp["result"][0] == "ok",
         "stats": stats,
         "digest": w.digest(),
     }
     if decoded or violations:
-        res["decoded"] = {"knobs": knobs, "program": R.decoded_program(prog), "expected": list(exp["result"][:3]),
-                          "observed": [real[0], R.normalise(real[1])] if real[0] == "ok" else list(real[:3])}
+        res["decoded"] = {"knobs": knobs, "history_prefix": R.decoded_ops(prefix), "program": R.decoded_program(prog),
+                          "expected": list(exp["result"][:3]), "observed": observed}
     return res
